@@ -138,7 +138,7 @@ package xmlenc
 //@ requires el: ciphertextEl != nil
 //@ requires[cfg] key: rsaKeyOK(key)
 //@ requires[cfg] fn: e.keyDecrypter != nil
-//@ assert@call[C10,C11,C08] field:xmlenc.RSA.keyDecrypter #each (fn func(RSA, *rsa.PrivateKey, []byte) ([]byte, error), ea RSA, ka *rsa.PrivateKey) args_nonnil:
+//@ assert@call[C10,C11,C08,C09] field:xmlenc.RSA.keyDecrypter #each (fn func(RSA, *rsa.PrivateKey, []byte) ([]byte, error), ea RSA, ka *rsa.PrivateKey) args_nonnil:
 //@    ea.DigestMethod != nil && ka != nil
 //@ assert@call[C10,C08] field:xmlenc.RSA.keyDecrypter #each (fn func(RSA, *rsa.PrivateKey, []byte) ([]byte, error), ea RSA) digest_absent:
 //@    ciphertextEl.FindElement("./EncryptionMethod/DigestMethod") == nil ==> ea.DigestMethod == DigestMethod(SHA1)
